@@ -430,8 +430,11 @@ pub fn c09(case: &Case, obs: &mut Obs, prec: Prec) -> Result<(), Failure> {
         obs.class("changes-box-test");
     }
     obs.nontrivial = base_nt && (changes_box_test || changes_bound || dir == 0);
+    // the extended operands go through one of the trait implementations the part counts allow
+    let pairing = Pairing::choose(&a2, &b2, case.bits >> 12);
+    obs.class(pairing.name());
     for (i, &op) in OPS.iter().enumerate() {
-        let r2 = run(prec, &a2, &b2, op)?;
+        let r2 = run_op(prec, pairing, &a2, &b2, op).map_err(|p| panic_failure(op_name(op), &p))?;
         let contributes = match op {
             Operation::Union | Operation::Xor => true,
             Operation::Difference => on_a,
